@@ -201,7 +201,7 @@ CHECKS["C02"] = dict(
     technique="differential property-based testing on the full-chain simulator: a failed call vs a fee-only twin transaction on a fork of the pre-state (state roots must be equal), plus event-list oracle",
     level_text="Every generated contract call that ends as a chargeable failure is compared with a plain data transaction carrying the same sender, fee, nonce, hash and time applied to a fork of the same pre-state: equal state roots prove that nothing but the fee payment and the nonce increment survived; the returned events must be exactly one error event plus the balance events of sender and miner contract.",
     level_note=E1_NOTE + " Non-trivial cases are failing calls for which an instrumented dry run shows state writes or queued transfers before the error.",
-    parts=[dict(pkg=CORE, run="^TestC02_FailedCallOnlyPaysFee$", quick=300, thorough=30000, floor=2)],
+    parts=[dict(pkg=CORE, run="^TestC02_FailedCallOnlyPaysFee$", quick=300, thorough=30000, floor=4)],
 )
 CHECKS["C06"] = dict(
     level="exploration", engine="E1",
